@@ -71,8 +71,24 @@ def arith_cases(w, tag, pairs, rng):
             yield sx([19, 3, w, tag, op, a, 0 if op == 4 else b])
 
 
+def wrapper_operator_cases():
+    """'trace/record wrappers inherit these': every single-instruction Trace program (C05 case
+    language) and Record program (C04 case language) — each case runs the operator through all
+    owned/borrowed operand forms and both negation forms in the harness — replayed here when
+    those properties' runners are part of this build."""
+    from tools import vlib
+    if "C05" in vlib.ACTIVE and "C04" in vlib.ACTIVE:
+        from tools.props import c04, c05
+        for ty in (0, 1):
+            for line in c04.exhaustive(1, ty):
+                yield line
+                t, body, outs = c05.from_c04(line)
+                yield from c05.cases_for(t, body, outs)
+
+
 def gen(tier, rng):
     quick = tier == "quick"
+    yield from wrapper_operator_cases()
     # ---- from_usize: exhaustive 0..=65536
     for tag in range(14):
         for w in range(3):
